@@ -42,6 +42,9 @@ pub struct Case {
     pub url: UrlSpec,
     pub http_proxy: Option<ProxySpec>,
     pub https_proxy: Option<ProxySpec>,
+    /// when present the first response is a 307 to this URL: the proxy choice must be made again for it
+    #[serde(default)]
+    pub redirect_to: Option<UrlSpec>,
 }
 
 pub struct C08;
@@ -332,7 +335,7 @@ non-trivial = a proxy is involved or the URL has >= 2 of {explicit port, IPv6, f
                                                         0 => None,
                                                         k => Some(ProxySpec { https: *k == 2, host: ph.clone(), port: *pp, creds: pc.clone() }),
                                                     };
-                                                    all.push(Case { url, http_proxy: proxy.clone(), https_proxy: proxy });
+                                                    all.push(Case { url, http_proxy: proxy.clone(), https_proxy: proxy, redirect_to: None });
                                                 }
                                             }
                                         }
@@ -352,20 +355,37 @@ non-trivial = a proxy is involved or the URL has >= 2 of {explicit port, IPv6, f
             urlgen::url_spec(true, true),
             prop_oneof![1 => Just(None), 2 => proxy_spec().prop_map(Some)],
             prop_oneof![1 => Just(None), 2 => proxy_spec().prop_map(Some)],
+            prop_oneof![3 => Just(None), 1 => urlgen::url_spec(true, false).prop_map(Some)],
         )
-            .prop_map(|(mut url, http_proxy, https_proxy)| {
+            .prop_map(|(mut url, http_proxy, https_proxy, redirect_to)| {
+                let redirect_to = redirect_to.map(|mut u| {
+                    u.fragment = None;
+                    if u.https && https_proxy.is_some() {
+                        if let HostSpec::V6(_) = u.host {
+                            u.host = HostSpec::Domain(vec!["v6-excluded".into(), "test".into()]);
+                        }
+                    }
+                    u
+                });
                 if url.https && https_proxy.is_some() {
                     if let HostSpec::V6(_) = url.host {
                         url.host = HostSpec::Domain(vec!["v6-excluded".into(), "test".into()]);
                     }
                 }
-                Case { url, http_proxy, https_proxy }
+                Case { url, http_proxy, https_proxy, redirect_to }
             })
             .boxed()
     }
 
     fn check(case: &Case, ctx: &mut Ctx) -> Outcome {
-        let (_guard, net) = install_router(|_, _| ok_response(), "good");
+        let loc = case.redirect_to.as_ref().map(|u| u.render());
+        let (_guard, net) = install_router(
+            move |_, idx| match (&loc, idx) {
+                (Some(l), 0) => format!("HTTP/1.1 307 Temporary Redirect\r\nLocation: {l}\r\nContent-Length: 0\r\n\r\n").into_bytes(),
+                _ => ok_response(),
+            },
+            "good",
+        );
         let mut b = attohttpc::ProxySettings::builder();
         if let Some(p) = &case.http_proxy {
             b = b.http_proxy(url::Url::parse(&p.render()).expect("proxy url"));
@@ -388,11 +408,20 @@ non-trivial = a proxy is involved or the URL has >= 2 of {explicit port, IPv6, f
             let t = exs.first().and_then(|e| e.tls_error.clone());
             return Outcome::fail(format!("C08:send-failed:{route}"), format!("{e:?} (url {url}, proxy {:?}, tunnel tls error {t:?})", proxy.map(|p| p.render())));
         }
-        if exs.len() != 1 {
-            return Outcome::fail("C08:dials", format!("{} connections", exs.len()));
+        let hops = 1 + usize::from(case.redirect_to.is_some());
+        if exs.len() != hops {
+            return Outcome::fail("C08:dials", format!("{} connections, expected {hops}", exs.len()));
         }
         if let Err((sig, d)) = check_exchange("C08", &exs[0], &case.url, &[], proxy) {
             return Outcome::fail(sig, d);
+        }
+        if let Some(u2) = &case.redirect_to {
+            let p2 = select(u2, &case.http_proxy, &case.https_proxy);
+            ctx.label("redirect-hop");
+            ctx.label_if(p2.map(|p| p.render()) != proxy.map(|p| p.render()), "redirect-changes-proxy");
+            if let Err((sig, d)) = check_exchange("C08", &exs[1], u2, &[], p2) {
+                return Outcome::fail(format!("{sig}:after-redirect"), d);
+            }
         }
         if proxy.is_some() && case.url.https {
             // SNI names the origin (domain hosts)
